@@ -798,7 +798,7 @@ func c20Gov(h *History, g *G) []EnvAction {
 var ProfileC20 = &Profile{
 	MultiMsg: true,
 	ID:       "C20", Name: "tradeshield", MinBlocks: 6, MaxBlocks: 40, MaxTxs: 4, Spec: withPoolPricedElys(specDefault), Check: CheckC20, ExtraOps: c20ExtraOps, Filter: c20Filter, PreBlock: c20Gov,
-	Weights: map[string]int{"tradeshield.execute": 14, "oracle.feed_price": 10, "amm.swap_in": 5, "amm.swap_out": 3, "perpetual.open": 3, "perpetual.close": 2, "amm.join": 2, "amm.exit": 2, "stablestake.bond": 1},
+	Weights: map[string]int{"tradeshield.execute": 14, "oracle.feed_price": 10, "amm.swap_in": 5, "amm.swap_out": 3, "perpetual.open": 3, "perpetual.close": 2, "amm.join": 5, "amm.exit": 4, "stablestake.bond": 1},
 	Gaps:    []time.Duration{time.Second, 5 * time.Second, 6 * time.Second, time.Hour + time.Second},
 	Rule:    "history with an execution request that left a named order pending (skipped or failed attempt) followed later by the owner's cancel of that order, and >=1 executed order",
 	NonTrivial: func(h *History) bool {
